@@ -331,3 +331,25 @@ Proof.
   intros Hwf Hp Hph. apply (run_failure_one_dead_letter f ls o p e Hp Hph).
   eapply failure_has_site; [apply res_ok_run, Hwf|exact Hp|exact Hph].
 Qed.
+
+(* ---------- an operation's result, once returned, never changes ---------- *)
+Lemma done_stable_step s l o p :
+  get_op s o = Some p -> is_done (o_ph p) = true ->
+  exists p', get_op (sys_step s l) o = Some p' /\ o_ph p' = o_ph p /\ op_static p' = op_static p.
+Proof.
+  intros Hp Hd. destruct (op_step_cases s l o p Hp) as (p' & Hp' & HC). exists p'. split; [exact Hp'|].
+  destruct HC as [->|evs _ Hnd _ _|_ Hnd _|evs _ HC]; try congruence; try (split; reflexivity).
+  destruct (slot_case_static _ _ _ HC) as (E1 & E2 & _). auto.
+Qed.
+
+Theorem run_result_stable f ls ls2 o p :
+  get_op (run f ls) o = Some p -> is_done (o_ph p) = true ->
+  exists p', get_op (run f (ls ++ ls2)) o = Some p' /\ o_ph p' = o_ph p /\ op_static p' = op_static p.
+Proof.
+  intros Hp Hd. induction ls2 as [|l ls2 IH] using rev_ind.
+  - rewrite app_nil_r. exists p. auto.
+  - destruct IH as (p1 & Hp1 & E1 & S1).
+    rewrite app_assoc. unfold run at 1. rewrite fold_left_app. cbn [fold_left]. fold (run f (ls ++ ls2)).
+    destruct (done_stable_step (run f (ls ++ ls2)) l o p1 Hp1) as (p2 & Hp2 & E2 & S2); [congruence|].
+    exists p2. split; [exact Hp2|]. split; congruence.
+Qed.
